@@ -195,7 +195,9 @@ func runC10(r *R) {
 // ---- gRPC clause: the documented mapping of call status to HTTP-style codes, tags, one sample per call ----
 
 var c10Codes = []codes.Code{codes.OK, codes.Canceled, codes.Unknown, codes.InvalidArgument, codes.DeadlineExceeded, codes.NotFound, codes.AlreadyExists, codes.PermissionDenied,
-	codes.ResourceExhausted, codes.FailedPrecondition, codes.Aborted, codes.OutOfRange, codes.Unimplemented, codes.Internal, codes.Unavailable, codes.DataLoss, codes.Unauthenticated}
+	codes.ResourceExhausted, codes.FailedPrecondition, codes.Aborted, codes.OutOfRange, codes.Unimplemented, codes.Internal, codes.Unavailable, codes.DataLoss, codes.Unauthenticated,
+	// a status number outside the standard 0..16 (grpc-go passes it through unchanged): anything else -> 500
+	codes.Code(42), codes.Code(17)}
 
 type grpcPlan struct {
 	Entries  int
